@@ -24,7 +24,7 @@ def option_method(name):
     st = S()
 
     def f(I, a, fr, d):
-        o = deref(a[0]) if name in ("is_some", "is_none", "as_ref", "as_mut", "as_deref", "cloned", "copied", "take", "insert", "get_or_insert_with") else a[0]
+        o = deref(a[0]) if name in ("is_some", "is_none", "as_ref", "as_mut", "as_deref", "cloned", "copied", "take", "insert", "get_or_insert_with", "replace") else a[0]
         is_some = o.variant == "Some"
         val = o.cells[0].v if is_some else None
         if name == "is_some": return is_some
@@ -60,6 +60,9 @@ def option_method(name):
         if name == "take":
             cell = a[0].cell
             v = cell.v; cell.v = st.none(I); return v
+        if name == "replace":
+            cell = a[0].cell
+            v = cell.v; cell.v = st.some(I, a[1]); return v
         if name == "unwrap_unchecked": return val
         if name == "iter" or name == "into_iter":
             return Iter("list", xs=[val] if is_some else [], i=0)
@@ -658,6 +661,8 @@ def set_method(head, name):
         if name == "contains": return set_contains(I, s, deref(a[1]))
         if name == "len": return usize(len(s.items))
         if name == "is_empty": return len(s.items) == 0
+        if name == "clear":
+            del s.items[:]; return unit()
         if name == "remove":
             k = deref(a[1])
             for i, kk in enumerate(s.items):
